@@ -74,6 +74,7 @@ from halmos.contract import (
     OP_BLOCKHASH,
     OP_BYTE,
     OP_CALL,
+    OP_CALLCODE,
     OP_CALLDATACOPY,
     OP_CALLDATALOAD,
     OP_CALLDATASIZE,
@@ -2385,6 +2386,9 @@ class SEVM:
                 # TODO: revert if context is static
                 # NOTE: we cannot use `to_alias` here because it could be None
                 self.transfer_value(ex, pranked_caller, to, fund, condition)
+            elif op == OP_CALLCODE:
+                # the self-transfer leaves balances unchanged, but the evm still requires enough balance
+                self.transfer_value(ex, pranked_caller, pranked_caller, fund, condition)
 
         def call_known(to: Address) -> None:
             # backup current state
